@@ -61,8 +61,12 @@ def value_forms(r):
     if k < 0.85:
         a, b = r.randint(0, 9), r.randint(0, 9)
         return f"({a}+{b})", str(a + b)
-    a, b = r.randint(1, 9), r.randint(1, 9)
-    return f"({a}*{b}-1)", str(a * b - 1)
+    if k < 0.93:
+        a, b = r.randint(1, 9), r.randint(1, 9)
+        return f"({a}*{b}-1)", str(a * b - 1)
+    # an amount that evaluates to a negative number or to zero (a subtraction of a negative amount is reported as written)
+    a, b = r.randint(0, 5), r.randint(5, 9)
+    return f"({a}-{b})", str(a - b)
 
 
 def gen_assign_list(r):
